@@ -179,7 +179,7 @@ def run(tier, seed, build=True):
         bigvars = [("gz-l1", "t.log.gz", gen.gz(bigdata, 1))]
         if tier == "thorough":
             bigvars += [("bz2", "t.log.bz2", gen.bz(bigdata, 1)), ("xz", "t.log.xz", gen.xz(bigdata, 0)),
-                        ("lz4-cs", "t.log.lz4", gen.lz4_frame(bigdata, 4 << 20, content_size=True)), ("tar", "t.tar", gen.tar([("t.log", bigdata)]))]
+                        ("lz4-cs", "t.log.lz4", gen.lz4_frame(bigdata, 65536, content_size=True)), ("tar", "t.tar", gen.tar([("t.log", bigdata)]))]
         y, m, d, h, mi, s_ = gen.civil(E + nl - 5)
         latearg = "%04d%02d%02dT%02d%02d%02d" % (y, m, d, h, mi, s_)
         for w in ([], ["-a", latearg]):
